@@ -19,22 +19,24 @@ structure JW (st : St) (w : BW) : Prop where
   ctx : w.md5ctx = if st.md5Check then some st.written else none
   md5 : w.md5 = none
   nc : noComplete st.out
+  nbw : w.nbWritten = st.written.length
 
 /-- same fields of the block writer that the write path never touches -/
 structure SameBW (w w' : BW) : Prop where
   cenc : w'.cenc = w.cenc
   left : w'.bytesLeft = w.bytesLeft
   sbn : w'.sbn = w.sbn
+  cl : w'.cl = w.cl
 
-theorem SameBW.refl (w : BW) : SameBW w w := ⟨rfl, rfl, rfl⟩
+theorem SameBW.refl (w : BW) : SameBW w w := ⟨rfl, rfl, rfl, rfl⟩
 theorem SameBW.trans {a b c : BW} (h1 : SameBW a b) (h2 : SameBW b c) : SameBW a c :=
-  ⟨h2.cenc.trans h1.cenc, h2.left.trans h1.left, h2.sbn.trans h1.sbn⟩
+  ⟨h2.cenc.trans h1.cenc, h2.left.trans h1.left, h2.sbn.trans h1.sbn, h2.cl.trans h1.cl⟩
 
 theorem wWrite_spec (P : Params) (st : St) (sbn : Nat) (d : Bytes) :
     SameSt st (wWrite P st sbn d).1 ∧
     ((wWrite P st sbn d).2 = true → (wWrite P st sbn d).1.written = st.written ++ d) ∧
     (noComplete st.out → noComplete (wWrite P st sbn d).1.out) := by
-  refine ⟨⟨rfl, rfl, rfl, rfl, rfl, rfl, rfl, rfl, rfl, rfl, rfl, rfl, rfl, rfl⟩, ?_, ?_⟩
+  refine ⟨⟨rfl, rfl, rfl, rfl, rfl, rfl, rfl, rfl, rfl, rfl, rfl, rfl, rfl, rfl, rfl⟩, ?_, ?_⟩
   · intro h
     simp only [wWrite] at h
     simp [wWrite, St.written, writtenOf, h]
@@ -53,27 +55,28 @@ theorem jw_decoderRead (P : Params) (fuel : Nat) (st : St) (w : BW) {st' : St} {
     · dsimp only at h
       split at h
       · simp at h; obtain ⟨rfl, rfl⟩ := h
-        exact ⟨⟨hj.ctx, hj.md5, hj.nc⟩, ⟨rfl, rfl, rfl⟩, SameSt.refl _⟩
+        exact ⟨⟨hj.ctx, hj.md5, hj.nc, hj.nbw⟩, ⟨rfl, rfl, rfl, rfl⟩, SameSt.refl _⟩
       · simp at h
       · rename_i out0 _
         generalize hd : List.take w.bufLen out0 = d at h
         split at h
         · simp at h; obtain ⟨rfl, rfl⟩ := h
-          exact ⟨⟨hj.ctx, hj.md5, hj.nc⟩, ⟨rfl, rfl, rfl⟩, SameSt.refl _⟩
+          exact ⟨⟨hj.ctx, hj.md5, hj.nc, hj.nbw⟩, ⟨rfl, rfl, rfl, rfl⟩, SameSt.refl _⟩
         · split at h
           · have key := fun hjw => ih _ _ hjw h
-            have := key ⟨hj.ctx, hj.md5, hj.nc⟩
-            exact ⟨this.1, ⟨this.2.1.cenc, this.2.1.left, this.2.1.sbn⟩, this.2.2⟩
+            have := key ⟨hj.ctx, hj.md5, hj.nc, hj.nbw⟩
+            exact ⟨this.1, ⟨this.2.1.cenc, this.2.1.left, this.2.1.sbn, this.2.1.cl⟩, this.2.2⟩
           · split at h
             · simp at h
             · rename_i hok
               have hs := wWrite_spec P st w.sbn d
               have hok' : (wWrite P st w.sbn d).2 = true := by simpa using hok
               have key := fun hjw => ih _ _ hjw h
-              refine (fun this => ⟨this.1, ⟨this.2.1.cenc, this.2.1.left, this.2.1.sbn⟩, hs.1.trans this.2.2⟩) (key ?_)
-              refine ⟨?_, hj.md5, hs.2.2 hj.nc⟩
-              simp only [hs.1.md5Check, hs.2.1 hok', hj.ctx]
-              split <;> simp
+              refine (fun this => ⟨this.1, ⟨this.2.1.cenc, this.2.1.left, this.2.1.sbn, this.2.1.cl⟩, hs.1.trans this.2.2⟩) (key ?_)
+              refine ⟨?_, hj.md5, hs.2.2 hj.nc, ?_⟩
+              · simp only [hs.1.md5Check, hs.2.1 hok', hj.ctx]
+                split <;> simp
+              · simp only [hs.2.1 hok', List.length_append, hj.nbw]
 
 theorem jw_dwLoop (P : Params) (fuel : Nat) (st : St) (w : BW) (pkt : Bytes) (off : Nat) (stalled : Bool)
     {st' : St} {w' : BW} (hj : JW st w)
@@ -91,8 +94,8 @@ theorem jw_dwLoop (P : Params) (fuel : Nat) (st : St) (w : BW) (pkt : Bytes) (of
       · simp at h
       · rename_i heq
         have key := fun hjw => jw_decoderRead P _ _ _ hjw heq
-        have h1 := key ⟨hj.ctx, hj.md5, hj.nc⟩
-        have sb : SameBW w _ := ⟨h1.2.1.cenc, h1.2.1.left, h1.2.1.sbn⟩
+        have h1 := key ⟨hj.ctx, hj.md5, hj.nc, hj.nbw⟩
+        have sb : SameBW w _ := ⟨h1.2.1.cenc, h1.2.1.left, h1.2.1.sbn, h1.2.1.cl⟩
         split at h
         · simp at h; obtain ⟨rfl, rfl⟩ := h
           exact ⟨h1.1, sb, h1.2.2⟩
@@ -107,8 +110,8 @@ theorem jw_decodeWritePkt (P : Params) (st : St) (w : BW) (pkt : Bytes) {st' : S
   unfold decodeWritePkt at h
   split at h
   · have key := fun hjw => jw_decoderRead P _ _ _ hjw h
-    have h1 := key ⟨hj.ctx, hj.md5, hj.nc⟩
-    exact ⟨h1.1, ⟨h1.2.1.cenc, h1.2.1.left, h1.2.1.sbn⟩, h1.2.2⟩
+    have h1 := key ⟨hj.ctx, hj.md5, hj.nc, hj.nbw⟩
+    exact ⟨h1.1, ⟨h1.2.1.cenc, h1.2.1.left, h1.2.1.sbn, h1.2.1.cl⟩, h1.2.2⟩
   · exact jw_dwLoop _ _ _ _ _ _ _ hj h
 
 theorem jw_bwData (P : Params) (st : St) (w : BW) (data : Bytes) {st' : St} {w' : BW}
@@ -120,9 +123,10 @@ theorem jw_bwData (P : Params) (st : St) (w : BW) (data : Bytes) {st' : St} {w' 
     simp at h
     obtain ⟨rfl, rfl, hok⟩ := h
     have hs := wWrite_spec P st w.sbn data
-    refine ⟨⟨?_, hj.md5, hs.2.2 hj.nc⟩, ⟨rfl, rfl, rfl⟩, hs.1, fun _ => hs.2.1 hok⟩
-    simp only [hs.1.md5Check, hs.2.1 hok, hj.ctx]
-    split <;> simp
+    refine ⟨⟨?_, hj.md5, hs.2.2 hj.nc, ?_⟩, ⟨rfl, rfl, rfl, rfl⟩, hs.1, fun _ => hs.2.1 hok⟩
+    · simp only [hs.1.md5Check, hs.2.1 hok, hj.ctx]
+      split <;> simp
+    · simp only [hok, if_true, hs.2.1 hok, List.length_append, hj.nbw]
   · rename_i hc
     have := jw_decodeWritePkt _ _ _ _ hj h
     exact ⟨this.1, this.2.1, this.2.2, fun hn => absurd hn hc⟩
@@ -133,8 +137,8 @@ theorem jw_bwFinish (P : Params) (st : St) (w : BW) {st' : St} {w' : BW}
   unfold bwFinish at h
   split at h
   · have key := fun hjw => jw_decoderRead P _ _ _ hjw h
-    have h1 := key ⟨hj.ctx, hj.md5, hj.nc⟩
-    exact ⟨h1.1, ⟨h1.2.1.cenc, h1.2.1.left, h1.2.1.sbn⟩, h1.2.2⟩
+    have h1 := key ⟨hj.ctx, hj.md5, hj.nc, hj.nbw⟩
+    exact ⟨h1.1, ⟨h1.2.1.cenc, h1.2.1.left, h1.2.1.sbn, h1.2.1.cl⟩, h1.2.2⟩
   · simp at h; obtain ⟨rfl, rfl⟩ := h
     exact ⟨hj, SameBW.refl _, SameSt.refl _⟩
 
@@ -149,11 +153,12 @@ structure BwPost (P : Params) (st : St) (w : BW) (data : Bytes) (st' : St) : Pro
   nc : noComplete st'.out
   ex : ∃ w', st'.bw = some w' ∧ w'.cenc = w.cenc ∧ w'.sbn = w.sbn + 1 ∧
         w'.bytesLeft = w.bytesLeft - (trimTo w.bytesLeft data).length ∧
+        w'.cl = w.cl ∧ w'.nbWritten = st'.written.length ∧
         (w'.bytesLeft ≠ 0 → JW st' w') ∧
         (w'.bytesLeft = 0 → w'.md5 = if st'.md5Check then some (P.md5 st'.written) else none) ∧
         (w.cenc = .null → w.dz = none → st'.written = st.written ++ trimTo w.bytesLeft data ∧ w'.dz = none)
 
-theorem sameSt_setBw (st : St) (w : BW) : SameSt st { st with bw := some w } := ⟨rfl, rfl, rfl, rfl, rfl, rfl, rfl, rfl, rfl, rfl, rfl, rfl, rfl, rfl⟩
+theorem sameSt_setBw (st : St) (w : BW) : SameSt st { st with bw := some w } := ⟨rfl, rfl, rfl, rfl, rfl, rfl, rfl, rfl, rfl, rfl, rfl, rfl, rfl, rfl, rfl⟩
 
 theorem bwFinish_dz_none (P : Params) (st : St) (w : BW) (h : w.dz = none) : bwFinish P st w = .ok (st, w, true) := by
   unfold bwFinish; rw [h]
@@ -215,12 +220,14 @@ theorem jw_bwWrite (P : Params) (st : St) (sbn : Nat) (blk : Block) (w : BW) {st
             · simp at h; rw [hr] at h; simp at h
             · rename_i st2 w2 heq2
               have key := fun hjw => jw_bwFinish P _ _ hjw heq2
-              have h2 := key ⟨h1.1.ctx, h1.1.md5, h1.1.nc⟩
+              have h2 := key ⟨h1.1.ctx, h1.1.md5, h1.1.nc, h1.1.nbw⟩
               simp at h; obtain ⟨rfl, _⟩ := h
-              refine ⟨(h1.2.2.1.trans h2.2.2).trans (sameSt_setBw _ _), h2.1.nc, _, rfl, ?_, ?_, ?_, ?_, ?_, ?_⟩
+              refine ⟨(h1.2.2.1.trans h2.2.2).trans (sameSt_setBw _ _), h2.1.nc, _, rfl, ?_, ?_, ?_, ?_, ?_, ?_, ?_, ?_⟩
               · simp [h2.2.1.cenc, h1.2.1.cenc]
               · simp [h2.2.1.sbn, h1.2.1.sbn]
               · simp [h2.2.1.left, h1.2.1.left]
+              · simp [h2.2.1.cl, h1.2.1.cl]
+              · exact h2.1.nbw
               · intro hne
                 simp [h2.2.1.left] at hne
                 exact absurd hz hne
@@ -237,12 +244,14 @@ theorem jw_bwWrite (P : Params) (st : St) (sbn : Nat) (blk : Block) (w : BW) {st
                 exact ⟨h1.2.2.2 hc, e1⟩
           · rename_i hnz
             simp at h; obtain ⟨rfl, _⟩ := h
-            refine ⟨h1.2.2.1.trans (sameSt_setBw _ _), h1.1.nc, _, rfl, ?_, ?_, ?_, ?_, ?_, ?_⟩
+            refine ⟨h1.2.2.1.trans (sameSt_setBw _ _), h1.1.nc, _, rfl, ?_, ?_, ?_, ?_, ?_, ?_, ?_, ?_⟩
             · simp [h1.2.1.cenc]
             · simp [h1.2.1.sbn]
             · simp [h1.2.1.left]
+            · simp [h1.2.1.cl]
+            · exact h1.1.nbw
             · intro _
-              exact ⟨h1.1.ctx, h1.1.md5, h1.1.nc⟩
+              exact ⟨h1.1.ctx, h1.1.md5, h1.1.nc, h1.1.nbw⟩
             · intro hz
               simp at hz
               exact absurd hz hnz
@@ -255,13 +264,15 @@ theorem jw_bwWrite (P : Params) (st : St) (sbn : Nat) (blk : Block) (w : BW) {st
 structure Done (P : Params) (st : St) : Prop where
   len : st.cenc = some .null → ∃ T, st.tl = some T ∧ st.written.length = T
   md5 : ∀ m, st.md5 = some m → st.md5Check = true → st.tl ≠ some 0 → P.md5 st.written = m
+  /-- an announced Content-Length is exactly the number of bytes written (any cenc; not checked for an empty transfer) -/
+  cl : ∀ n, st.cl = some n → st.tl ≠ some 0 → st.written.length = n
 
 structure JOpen (st : St) : Prop where
   nc : noComplete st.out
   ex : ∃ T C, st.tl = some T ∧ st.cenc = some C ∧
         (T = 0 → st.bw = none ∧ st.written = []) ∧
         (T ≠ 0 → ∃ w, st.bw = some w ∧ w.cenc = C ∧ w.bytesLeft ≠ 0 ∧ JW st w ∧
-                  (C = .null → w.dz = none ∧ st.written.length + w.bytesLeft = T))
+                  (C = .null → w.dz = none ∧ st.written.length + w.bytesLeft = T) ∧ w.cl = st.cl)
 
 structure JInv (P : Params) (st : St) : Prop where
   none_ : st.writer = none → st.written = [] ∧ noComplete st.out
@@ -278,14 +289,15 @@ structure SameJ (st st' : St) : Prop where
   cenc : st'.cenc = st.cenc
   md5 : st'.md5 = st.md5
   md5Check : st'.md5Check = st.md5Check
+  cl : st'.cl = st.cl
 
-theorem SameJ.refl (st : St) : SameJ st st := ⟨rfl, rfl, rfl, rfl, rfl, rfl, rfl⟩
+theorem SameJ.refl (st : St) : SameJ st st := ⟨rfl, rfl, rfl, rfl, rfl, rfl, rfl, rfl⟩
 theorem SameJ.trans {a b c : St} (h1 : SameJ a b) (h2 : SameJ b c) : SameJ a c :=
   ⟨h2.writer.trans h1.writer, h2.out.trans h1.out, h2.bw.trans h1.bw, h2.tl.trans h1.tl, h2.cenc.trans h1.cenc,
-   h2.md5.trans h1.md5, h2.md5Check.trans h1.md5Check⟩
+   h2.md5.trans h1.md5, h2.md5Check.trans h1.md5Check, h2.cl.trans h1.cl⟩
 
 theorem JW.sameJ {st st' : St} {w : BW} (h : JW st w) (s : SameJ st st') : JW st' w := by
-  refine ⟨?_, h.md5, by rw [s.out]; exact h.nc⟩
+  refine ⟨?_, h.md5, by rw [s.out]; exact h.nc, by rw [St.written, s.out]; exact h.nbw⟩
   rw [s.md5Check, St.written, s.out]; exact h.ctx
 
 theorem JOpen.sameJ {st st' : St} (h : JOpen st) (s : SameJ st st') : JOpen st' := by
@@ -295,8 +307,8 @@ theorem JOpen.sameJ {st st' : St} (h : JOpen st) (s : SameJ st st') : JOpen st' 
     have := h3 hT
     exact ⟨s.bw.trans this.1, by rw [St.written, s.out]; exact this.2⟩
   · intro hT
-    obtain ⟨w, a, b, c, d, e⟩ := h4 hT
-    refine ⟨w, s.bw.trans a, b, c, d.sameJ s, ?_⟩
+    obtain ⟨w, a, b, c, d, e, f⟩ := h4 hT
+    refine ⟨w, s.bw.trans a, b, c, d.sameJ s, ?_, by rw [s.cl]; exact f⟩
     intro hC
     have := e hC
     exact ⟨this.1, by rw [St.written, s.out]; exact this.2⟩
@@ -305,6 +317,7 @@ theorem Done.sameJ {P : Params} {st st' : St} (h : Done P st) (s : SameJ st st')
   constructor
   · rw [s.cenc, s.tl, St.written, s.out]; exact h.len
   · rw [s.md5, s.md5Check, s.tl, St.written, s.out]; exact h.md5
+  · rw [s.cl, s.tl, St.written, s.out]; exact h.cl
 
 theorem JInv.sameJ {P : Params} {st st' : St} (h : JInv P st) (s : SameJ st st') : JInv P st' := by
   constructor
@@ -359,9 +372,10 @@ theorem jinv_complete_zero {P : Params} {st : St} (h : JInv P st) (ho : st.write
   constructor
   · intro _; exact ⟨0, by simpa using htl, by simp [hw]⟩
   · intro m _ _ hne; simp [htl] at hne
+  · intro n _ hne; simp [htl] at hne
 
 theorem sameJ_popBlock (st : St) (off : Nat) (blk : Block) : SameJ st (popBlock st off blk) := by
-  unfold popBlock; dsimp only; split <;> exact ⟨rfl, rfl, rfl, rfl, rfl, rfl, rfl⟩
+  unfold popBlock; dsimp only; split <;> exact ⟨rfl, rfl, rfl, rfl, rfl, rfl, rfl, rfl⟩
 
 /-- what is known when a function returned `Err` (the caller then calls `error()`) -/
 structure JErr (st : St) : Prop where
@@ -385,23 +399,36 @@ theorem jinv_finishObject {P : Params} {st : St} (w : BW) (T : Nat) (C : Cenc)
     (ho : st.writer = some .opened) (hnc : noComplete st.out)
     (htl : st.tl = some T) (hc : st.cenc = some C)
     (hlen : C = .null → st.written.length = T)
-    (hmd5 : w.md5 = if st.md5Check then some (P.md5 st.written) else none) :
+    (hmd5 : w.md5 = if st.md5Check then some (P.md5 st.written) else none)
+    (hcl : w.cl = st.cl) (hnbw : w.nbWritten = st.written.length) :
     JInv P (finishObject st w) := by
+  have herr : JInv P (error st false) := jinv_error' _ ⟨hnc, fun hn => by simp [ho] at hn⟩ (Or.inr ho)
   unfold finishObject
   split
-  · -- complete
-    rename_i hv
-    refine ⟨?_, ?_, ?_, ?_⟩ <;> simp [ho]
-    constructor
-    · intro hC
-      simp only [complete_cenc, hc] at hC
-      exact ⟨T, by simpa using htl, by simpa using hlen (by simpa using hC)⟩
-    · intro m hm hchk _
-      simp only [complete_md5] at hm
-      simp only [complete_md5Check] at hchk
-      simp only [md5Valid, hm, BW.checkMd5, hmd5, hchk] at hv
-      simpa using hv
-  · exact jinv_error' _ ⟨hnc, fun hn => by simp [ho] at hn⟩ (Or.inr ho)
+  · exact herr
+  · rename_i hck
+    split
+    · -- complete
+      rename_i hv
+      refine ⟨?_, ?_, ?_, ?_⟩ <;> simp [ho]
+      refine ⟨?_, ?_, ?_⟩
+      · intro hC
+        simp only [complete_cenc, hc] at hC
+        exact ⟨T, by simpa using htl, by simpa using hlen (by simpa using hC)⟩
+      · intro m hm hchk _
+        simp only [complete_md5] at hm
+        simp only [complete_md5Check] at hchk
+        simp only [md5Valid, hm, BW.checkMd5, hmd5, hchk] at hv
+        simpa using hv
+      · intro n hn _
+        have hn' : st.cl = some n := by
+          have : (complete st).cl = st.cl := by unfold complete; cases st.writer <;> simp
+          rw [this] at hn; exact hn
+        have hck' : w.checkCl = true := by simpa using hck
+        simp only [BW.checkCl, hcl, hn'] at hck'
+        simp at hck'
+        rw [complete_written, ← hnbw]; exact hck'.1.symm
+    · exact herr
 
 theorem jinv_writeLoop (P : Params) (fuel : Nat) (st : St) (sbn : Nat) {st' : St} {b : Bool}
     (hi : Inv st) (ho : st.writer = some .opened) (hj : JInv P st)
@@ -425,7 +452,7 @@ theorem jinv_writeLoop (P : Params) (fuel : Nat) (st : St) (sbn : Nat) {st' : St
             intro hT
             have hn := (h3 hT).1
             simp [bwWrite, hn] at h
-          obtain ⟨w, hbw, b0, c, d, e⟩ := h4 hT
+          obtain ⟨w, hbw, b0, c, d, e, ecl⟩ := h4 hT
           have : True := trivial
           · skip
             split at h
@@ -445,7 +472,7 @@ theorem jinv_writeLoop (P : Params) (fuel : Nat) (st : St) (sbn : Nat) {st' : St
               have hwr := wr_bwWrite _ _ _ _ heq
               have h1' := hi.wr ho hwr
               obtain ⟨data, hsrc, hp⟩ := ((jw_bwWrite _ _ _ _ _ hbw d heq).2.2 rfl).2
-              obtain ⟨w', p1, p2, p3, p4, p5, p6, p7⟩ := hp.ex
+              obtain ⟨w', p1, p2, p3, p4, pcl, pnbw, p5, p6, p7⟩ := hp.ex
               split at h
               · simp at h
               · split at h
@@ -472,11 +499,13 @@ theorem jinv_writeLoop (P : Params) (fuel : Nat) (st : St) (sbn : Nat) {st' : St
                         (sj.tl.trans (hp.same.tl.trans h1)) (sj.cenc.trans (hp.same.cenc.trans h2))
                       · intro hC; have := hlen hC; rw [St.written, sj.out]; rw [hz] at this; simpa [St.written] using this
                       · rw [sj.md5Check, St.written, sj.out]; exact p6 hz
+                      · rw [sj.cl, pcl, ecl, hp.same.cl]
+                      · rw [St.written, sj.out]; exact pnbw
                     · rename_i hnz
                       refine ih _ _ hpb.1 (hpb.2.trans h1'.2) ?_ h
                       have jo1 : JOpen st1 := by
                         refine ⟨hp.nc, T, C, hp.same.tl.trans h1, hp.same.cenc.trans h2, fun hT0 => absurd hT0 hT, fun _ => ?_⟩
-                        refine ⟨w2, p1, p2.trans b0, hnz, p5 hnz, fun hC => ?_⟩
+                        refine ⟨w2, p1, p2.trans b0, hnz, p5 hnz, fun hC => ?_, by rw [pcl, ecl, hp.same.cl]⟩
                         have e' := e hC
                         exact ⟨(p7 (b0.trans hC) e'.1).2, hlen hC⟩
                       have jinv1 : JInv P st1 := by
@@ -509,11 +538,11 @@ theorem QuietJ.trans {a b c : St} (h1 : QuietJ a b) (h2 : QuietJ b c) : QuietJ a
 theorem quietJ_growBlocks (st : St) (off : Nat) : QuietJ st (growBlocks st off) := by
   refine ⟨quiet_growBlocks _ _, ?_⟩
   unfold growBlocks; split
-  · exact ⟨rfl, rfl, rfl, rfl, rfl, rfl, rfl⟩
+  · exact ⟨rfl, rfl, rfl, rfl, rfl, rfl, rfl, rfl⟩
   · exact SameJ.refl _
 
 theorem quietJ_setError (st : St) : QuietJ st { st with state := .error } :=
-  ⟨quiet_setError _, ⟨rfl, rfl, rfl, rfl, rfl, rfl, rfl⟩⟩
+  ⟨quiet_setError _, ⟨rfl, rfl, rfl, rfl, rfl, rfl, rfl, rfl⟩⟩
 
 theorem quietJ_allocBlock (P : Params) (st : St) (o : Oti) (tl : Nat) (pid : PayloadId) (blk : Block)
     {st' : St} {r : Option Block} (h : allocBlock P st o tl pid blk = .ok (st', r)) : QuietJ st st' := by
@@ -527,12 +556,12 @@ theorem quietJ_allocBlock (P : Params) (st : St) (o : Oti) (tl : Nat) (pid : Pay
     · split at h
       · simp at h
       · split at h
-        · simp at h; rw [← h.1]; exact ⟨rfl, rfl, rfl, rfl, rfl, rfl, rfl⟩
+        · simp at h; rw [← h.1]; exact ⟨rfl, rfl, rfl, rfl, rfl, rfl, rfl, rfl⟩
         · split at h
-          · simp at h; rw [← h.1]; exact ⟨rfl, rfl, rfl, rfl, rfl, rfl, rfl⟩
+          · simp at h; rw [← h.1]; exact ⟨rfl, rfl, rfl, rfl, rfl, rfl, rfl, rfl⟩
           · split at h
             · simp at h
-            · simp at h; rw [← h.1]; exact ⟨rfl, rfl, rfl, rfl, rfl, rfl, rfl⟩
+            · simp at h; rw [← h.1]; exact ⟨rfl, rfl, rfl, rfl, rfl, rfl, rfl, rfl⟩
 
 theorem JErr.sameJ {st st' : St} (h : JErr st) (s : SameJ st st') : JErr st' :=
   ⟨by rw [s.out]; exact h.nc, by rw [s.writer, St.written, s.out]; exact h.none_⟩
@@ -580,7 +609,7 @@ theorem jinv_pushToBlock2 (P : Params) (st : St) (p : Pkt) {st' : St} {b : Bool}
                     split at h
                     · simp at h
                     · have q2 : QuietJ st { ‹St› with blocks := (‹St›).blocks.set (‹PayloadId›.sbn - st.blocksOffset) ‹Block› } :=
-                        q1.trans ⟨⟨rfl, rfl, rfl, rfl, rfl, rfl, .inl rfl, rfl, rfl⟩, ⟨rfl, rfl, rfl, rfl, rfl, rfl, rfl⟩⟩
+                        q1.trans ⟨⟨rfl, rfl, rfl, rfl, rfl, rfl, .inl rfl, rfl, rfl, rfl⟩, ⟨rfl, rfl, rfl, rfl, rfl, rfl, rfl, rfl⟩⟩
                       split at h
                       · exact jinv_writeBlocks _ _ _ (hi.quiet q2.q) (hj.sameJ q2.j) h
                       · simp at h; obtain ⟨rfl, rfl⟩ := h
@@ -623,7 +652,7 @@ theorem jinv_cacheLoop (P : Params) (fuel : Nat) (st : St) {st' : St}
         have := hi.term t
         simp [hc] at this
       have hl2 : Live { st with cache := rest } := hl
-      have hj2 : JInv P { st with cache := rest } := hj.sameJ ⟨rfl, rfl, rfl, rfl, rfl, rfl, rfl⟩
+      have hj2 : JInv P { st with cache := rest } := hj.sameJ ⟨rfl, rfl, rfl, rfl, rfl, rfl, rfl, rfl⟩
       split at h
       · simp at h
       · rename_i heq
@@ -645,7 +674,7 @@ theorem jinv_pushFromCache (P : Params) (st : St) {st' : St}
     · simp at h
     · rename_i heq
       simp at h; rw [← h]
-      exact (jinv_cacheLoop _ _ _ hi hj heq).sameJ ⟨rfl, rfl, rfl, rfl, rfl, rfl, rfl⟩
+      exact (jinv_cacheLoop _ _ _ hi hj heq).sameJ ⟨rfl, rfl, rfl, rfl, rfl, rfl, rfl, rfl⟩
 
 theorem sameJ_initBlocksPartitioning (st : St) {st' : St} (h : initBlocksPartitioning st = .ok st') : SameJ st st' := by
   unfold initBlocksPartitioning at h
@@ -654,7 +683,7 @@ theorem sameJ_initBlocksPartitioning (st : St) {st' : St} (h : initBlocksPartiti
   · split at h
     · split at h
       · simp at h
-      · simp at h; subst h; exact ⟨rfl, rfl, rfl, rfl, rfl, rfl, rfl⟩
+      · simp at h; subst h; exact ⟨rfl, rfl, rfl, rfl, rfl, rfl, rfl, rfl⟩
     · simp at h; rw [← h]; exact SameJ.refl _
 
 theorem jinv_openWriter {P : Params} (pl : Plan) (st : St) (tl : Nat) (cenc : Cenc) {st' : St}
@@ -687,10 +716,13 @@ theorem jinv_openWriter {P : Params} (pl : Plan) (st : St) (tl : Nat) (cenc : Ce
       · intro hT
         refine ⟨BW.new tl st.cl cenc (if st.md5.isSome = true then pl.md5Check else st.md5Check), by simp [hT],
           by simp [BW.new], by simpa [BW.new] using hT, ?_, ?_⟩
-        · refine ⟨?_, by simp [BW.new], by simpa [noComplete] using h0.2⟩
-          have : writtenOf st.out = [] := h0.1
-          simp only [BW.new, St.written, writtenOf, this]
-        · intro _
+        · refine ⟨?_, by simp [BW.new], by simpa [noComplete] using h0.2, ?_⟩
+          · have : writtenOf st.out = [] := h0.1
+            simp only [BW.new, St.written, writtenOf, this]
+          · have : writtenOf st.out = [] := h0.1
+            simp [BW.new, St.written, writtenOf, this]
+        · refine ⟨?_, by simp [BW.new]⟩
+          intro _
           have : writtenOf st.out = [] := h0.1
           simp [BW.new, St.written, writtenOf, this]
 
@@ -712,9 +744,9 @@ theorem jinv_initObjectWriter (P : Params) (st : St) {st' : St}
         · simpa [noComplete] using h0.2
       split at h
       · simp at h; subst h
-        exact hj2.sameJ ⟨rfl, rfl, rfl, rfl, rfl, rfl, rfl⟩
+        exact hj2.sameJ ⟨rfl, rfl, rfl, rfl, rfl, rfl, rfl, rfl⟩
       · simp at h; subst h
-        exact hj2.sameJ ⟨rfl, rfl, rfl, rfl, rfl, rfl, rfl⟩
+        exact hj2.sameJ ⟨rfl, rfl, rfl, rfl, rfl, rfl, rfl, rfl⟩
       · exact jinv_openWriter _ _ _ _ (by exact hw) hj2 (by exact htl) (by exact hcenc) h
     · simp at h; rw [← h]; exact hj
 
@@ -730,7 +762,7 @@ theorem jinv_setFromPkt {P : Params} (st : St) (p : Pkt) (hl : Live st) (hj : JI
   | inr ho =>
     obtain ⟨T, C, h1, h2, _, _⟩ := (hj.opened ho).ex
     apply hj.sameJ
-    refine ⟨q.writer, q.out, q.bw, ?_, ?_, ?_, ?_⟩
+    refine ⟨q.writer, q.out, q.bw, ?_, ?_, ?_, ?_, ?_⟩
     all_goals
       unfold setOtiFromPkt setCencFromPkt
       simp [h1, h2]
@@ -743,7 +775,7 @@ theorem jinv_cachePkt {P : Params} (st : St) (p : Pkt) (hj : JInv P st) : JInv P
   · exact hj
   · split
     · exact hj
-    · exact hj.sameJ ⟨rfl, rfl, rfl, rfl, rfl, rfl, rfl⟩
+    · exact hj.sameJ ⟨rfl, rfl, rfl, rfl, rfl, rfl, rfl, rfl⟩
 
 theorem jinv_push (P : Params) (st : St) (p : Pkt) {st' : St}
     (hi : Inv st) (hj : JInv P st) (h : push P st p = .ok st') : JInv P st' := by
